@@ -166,6 +166,100 @@ def drive(item):
     return recs
 
 
+@common.safe
+def interference(item):
+    """Several noise models of the same direction but different deformation
+    (name / axis) queried on ONE code object in one process, in two orders:
+    each must still report its own relabelled channel (no shared caches)."""
+    name, size, den, pts, seed = item
+    d2 = den * den
+    code = codes.build(name, size)
+    n = code.n
+    variants = []
+    for dn, kw in codes.deformation_variants(name):
+        variants.append((dn, dict(kw)))
+    rng = np.random.default_rng(seed)
+    recs = []
+    for (pn, r) in pts:
+        p = pn / den
+        rr = tuple(x / den for x in r)
+        models = [(dn, kw, PauliErrorModel(*rr, deformation_name=dn, deformation_kwargs=dict(kw)))
+                  for dn, kw in variants]
+        order = list(range(len(models)))
+        for rep in range(2):
+            rng.shuffle(order)
+            for j in order:
+                dn, kw, em = models[j]
+                pi, px, py, pz = em.probability_distribution(code, p)
+                wx, wz = em.get_weights(code, p)
+                if dn is None:
+                    D = [['X', 'Y', 'Z']] * n
+                else:
+                    D = []
+                    for q in range(n):
+                        d = code.get_deformation(tuple(code.qubit_coordinates[q]), dn, **kw)
+                        D.append([d['X'], d['Y'], d['Z']])
+                recs.append({'Den': den, 'G': G, 'pn': pn, 'r': list(r), 'n': int(n), 'D': D,
+                             'tables': [[on_grid(pi[q], d2), on_grid(px[q], d2), on_grid(py[q], d2),
+                                         on_grid(pz[q], d2)] for q in range(n)],
+                             'samples': [], 'fast': [],
+                             'wx': [marginal_from_weight(w) for w in wx],
+                             'wz': [marginal_from_weight(w) for w in wz],
+                             'bp_px': [], 'bp_pz': [], 'upd': [],
+                             '_label': f'{codes.label(name, size, dn, kw)} pn={pn} r={r} '
+                                       f'(models interleaved on one code object, pass {rep})',
+                             '_cost': n})
+    return recs
+
+
+SAME_N_GROUPS = [
+    [('RotatedPlanar2DCode', (2, 3)), ('RotatedPlanar2DCode', (3, 2))],
+    [('Toric2DCode', (2, 2)), ('Planar2DCode', (2, 3)), ('RotatedPlanar2DCode', (2, 4)), ('RotatedPlanar2DCode', (4, 2))],
+    [('Toric3DCode', (2, 2, 3)), ('Toric3DCode', (2, 3, 2)), ('Toric3DCode', (3, 2, 2))],
+    [('Planar2DCode', (2, 3)), ('Planar2DCode', (3, 2))],
+]
+
+
+@common.safe
+def shared_model(item):
+    """ONE noise model object used on several codes with the same number of
+    qubits (same class, transposed shapes; different classes), in two orders."""
+    group, dn, kw, den, pts, seed = item
+    d2 = den * den
+    objs = [(name, size, codes.build(name, size)) for name, size in group]
+    rng = np.random.default_rng(seed)
+    recs = []
+    for (pn, r) in pts:
+        p = pn / den
+        em = PauliErrorModel(*(x / den for x in r), deformation_name=dn, deformation_kwargs=dict(kw))
+        order = list(range(len(objs)))
+        for rep in range(2):
+            rng.shuffle(order)
+            for j in order:
+                name, size, code = objs[j]
+                n = code.n
+                pi, px, py, pz = em.probability_distribution(code, p)
+                D = []
+                for q in range(n):
+                    d = code.get_deformation(tuple(code.qubit_coordinates[q]), dn, **kw)
+                    D.append([d['X'], d['Y'], d['Z']])
+                js = [int(x) for x in rng.integers(0, d2, size=n)]
+                gen = Scripted(js, d2)
+                e = np.asarray(em.generate(code, p, rng=gen)).ravel()
+                letters = [XZ.get((int(e[q]), int(e[n + q])), '?') for q in range(n)]
+                recs.append({'Den': den, 'G': G, 'pn': pn, 'r': list(r), 'n': int(n), 'D': D,
+                             'tables': [[on_grid(pi[q], d2), on_grid(px[q], d2), on_grid(py[q], d2),
+                                         on_grid(pz[q], d2)] for q in range(n)],
+                             'samples': [{'js': js, 'letters': letters, 'draws': gen.calls,
+                                          'len': int(e.shape[0]),
+                                          'binary': bool(np.all((e == 0) | (e == 1)))}],
+                             'fast': [], 'wx': [], 'wz': [], 'bp_px': [], 'bp_pz': [], 'upd': [],
+                             '_label': f'{codes.label(name, size, dn, kw)} pn={pn} r={r} '
+                                       f'(one model shared by {len(objs)} codes of equal n, pass {rep})',
+                             '_cost': n})
+    return recs
+
+
 def run(tier):
     t0 = time.time()
     v = common.Verdict('C07')
@@ -186,7 +280,21 @@ def run(tier):
         for k, ch in enumerate(chunks):
             if ch:
                 jobs.append((name, size, dn, kw, den, ch, common.seed() + 7 * si + k))
-    out = common.pmap(drive, jobs, procs=15)
+    ijobs = []
+    biased = [pt for pt in pts if pt[0] in (den // 2, den) and len(set(pt[1])) == 3]
+    for si, (name, size) in enumerate(dict.fromkeys((s[0], s[1]) for s in subs)):
+        if len(codes.deformation_variants(name)) > 2:
+            ijobs.append((name, size, den, biased[si % 3::3][:6 if tier == 'quick' else 40],
+                          common.seed() + si))
+    sjobs = []
+    for gi, group in enumerate(SAME_N_GROUPS):
+        for dn, kw in (('XZZX', {}), ('XZZX', {'deformation_axis': 'x'}), ('XY', {})):
+            if dn == 'XY' and any(codes.dimension(nm) == 3 for nm, _ in group):
+                continue
+            sjobs.append((group, dn, kw, den, biased[gi % 3::3][:4 if tier == 'quick' else 30],
+                          common.seed() + 31 * gi))
+    out = (common.pmap(drive, jobs, procs=15) + common.pmap(interference, ijobs, procs=15)
+           + common.pmap(shared_model, sjobs, procs=15))
     recs = []
     for x in out:
         if isinstance(x, list):
